@@ -141,6 +141,7 @@ WebSocket::WebSocket()
 	_isClient = true;
 	_closed = true;
 	_code = 1000;
+	_sendMutex = new Mutex;
 	_socket.setEndian(ENDIAN_BIG);
 }
 
@@ -150,6 +151,7 @@ WebSocket::WebSocket(const Socket& s, bool isclient):
 {
 	_closed = false;
 	_code = 1000;
+	_sendMutex = new Mutex;
 	_socket.setEndian(ENDIAN_BIG);
 	_socket.setBlocking(true);
 }
@@ -392,7 +394,7 @@ void WebSocket::send(const byte* p, int length, FrameType type)
 {
 	if (length <= 0 || _closed)
 		return;
-	Lock lock(_sendMutex); // one frame at a time: a pong from the receiving thread must not land inside another frame
+	Lock lock(*_sendMutex); // one frame at a time: a pong from the receiving thread must not land inside another frame
 	byte opcode = (type == FRAME_TEXT) ? 1 : (type == FRAME_BINARY) ? 2 : (type == FRAME_PONG) ? 10 : (type == FRAME_PING) ? 9 : 8;
 	byte b0 = 0x80 | opcode;
 	byte masked = _isClient ? 0x80 : 0;
